@@ -54,6 +54,8 @@ fn langid_json(l: &icu_locid::LanguageIdentifier) -> Value {
 fn locales() -> Value {
     json!({
         "default": Locale::default().as_str(),
+        // whether leptos_i18n was built with its `cookie` feature (this crate's feature of the same name switches it)
+        "feature_cookie": cfg!(feature = "cookie"),
         "locales": Locale::get_all().iter().map(|l| json!({"name": l.as_str(), "langid": langid_json(l.as_langid())})).collect::<Vec<_>>(),
     })
 }
